@@ -2,7 +2,7 @@
 # usage: seed_batch.sh <slot> <seed id>...   re-runs kept seeds in an isolated slot (tools/seed_iso.sh), records the outcome in meta.json
 SLOT=$1; shift
 for S in "$@"; do
-  P=${S%%-*}
+  P=${S%%-*}; mkdir -p /tmp/iso_$SLOT
   /verif/tools/seed_iso.sh $SLOT $S $P quick > /tmp/iso_$SLOT/res_$S.txt 2>&1
   if grep -q "^VIOLATION" /tmp/iso_$SLOT/res_$S.txt; then V=caught; else V=missed; fi
   DET=$(grep -E "^FAILED-OBL" /tmp/iso_$SLOT/res_$S.txt | head -3 | cut -c1-300 | tr '\n' ';')
